@@ -3,6 +3,7 @@ engine, lets TLC judge (design-level model checking + trace validation) and fill
 import json
 import os
 import random
+import time
 
 import vf
 import e1
@@ -355,6 +356,29 @@ def c05(res, tier, rng, wd):
                            "dependence on the chunking is a rejection")
 
 
+def serial_spacing(res, wd):
+    """Beyond the listed properties: the silent interval (3.5 characters) between two transmissions on a serial line, on a
+    pseudo-terminal at 50 and 110 baud, judged by SerialTiming.tla.  An evidence stage of its own: whatever it finds is
+    reported there and never becomes a VIOLATION of the property whose check hosts it."""
+    t0 = time.time()
+    stage = {"stage": "beyond the listed properties: silent interval between serial transmissions (SerialTiming.tla)",
+             "kind": "trace-validation, real pseudo-terminal", "ok": False}
+    try:
+        os.makedirs(wd, exist_ok=True)
+        sp, tp = os.path.join(wd, "spacing.scripts.ndjson"), os.path.join(wd, "spacing.trace.ndjson")
+        with open(sp, "w") as f:
+            for i, baud in enumerate((50, 110)):
+                f.write(json.dumps({"id": i, "units": [1], "decode": [0, 0, 0], "seed": 3, "baud": baud, "kind": "spacing"}) + "\n")
+        rc, out = vf.sh([vf.harness_bin("e3_pty"), sp, tp], timeout=120)
+        r = vf.tlc_trace("SerialTiming.tla", "SerialTiming.cfg", tp, wd)
+        stage["ok"] = bool(r["accepted"]) and rc == 0
+        stage["observed"] = [json.loads(x) for x in open(tp) if x.strip()]
+    except Exception as e:      # never the host check's problem
+        stage["error"] = str(e)[:300]
+    stage["wall_s"] = round(time.time() - t0, 1)
+    res.stages.append(stage)
+
+
 @check("C06")
 def c06(res, tier, rng, wd):
     thorough = tier == "thorough"
@@ -369,6 +393,7 @@ def c06(res, tier, rng, wd):
     # CRC TLC computes, replies are accepted / requests executed only through the CRC check
     run_e2(res, "C06", e2.gen_pty_client(rng, thorough), wd, "c06ptyclient", levels=False)
     run_pty_server(res, "C06", e1.gen_pty_server(rng, thorough)[:2], wd, "c06ptyserver")
+    serial_spacing(res, os.path.join(wd, "spacing"))
     res.assumptions = E1_ASSUME + ["CRC-16/MODBUS is computed by TLC from its own table (Rtu.tla), independent of the crc crate"]
     return res.finish(rule="RTU request frames of every function (min/typical/max size, broadcast): every single-bit flip "
                            "(sampled for the 250-byte frames in the quick tier), sampled double-bit flips, bursts of 2..16 bits, the same under "
